@@ -543,6 +543,7 @@ def c_in_build(c, w, s, shape, ew, es):
 @contract("expr_refs.build", ["C01", "C08"],
           ["vsc.model.expr_fieldref_model.ExprFieldRefModel.build", "vsc.model.expr_indexed_field_ref_model.ExprIndexedFieldRefModel.build",
            "vsc.model.expr_array_subscript_model.ExprArraySubscriptModel.build", "vsc.model.expr_array_subscript_model.ExprArraySubscriptModel.width",
+           "vsc.model.expr_array_subscript_model.ExprArraySubscriptModel.subscript",
            "vsc.model.expr_indexed_field_ref_model.ExprIndexedFieldRefModel.width"],
           lambda tier, seed: [(w, s) for w in (1, 8, 33) for s in (False, True)], replay="none")
 def c_refs(c, w, s):
@@ -576,6 +577,15 @@ def c_refs(c, w, s):
     for i in range(3):
         sb = ExprArraySubscriptModel(ExprFieldRefModel(arr), ExprLiteralModel(i, False, 32))
         c.check("list[i] builds the node of exactly element i", sb.build(bt) is arr.field_l[i].var and sb.width() == w and sb.is_signed() is s)
+    # the element is resolved from the list at every use: replacing element 1 re-targets an existing list[1] expression
+    sb1 = ExprArraySubscriptModel(ExprFieldRefModel(arr), ExprLiteralModel(1, False, 32))
+    old1 = arr.field_l[1]
+    c.check("list[1] denotes element 1 (subscript() and getFieldModel())", sb1.subscript() is old1 and sb1.getFieldModel() is old1)
+    new1 = FieldScalarModel("l[1]'", w, s, True)
+    arr.set_field(1, new1)
+    new1.build(bt)
+    c.check("after the element at index 1 was replaced, the same list[1] expression denotes and builds the new element",
+            sb1.subscript() is new1 and sb1.getFieldModel() is new1 and sb1.build(bt) is new1.var)
     g = FieldScalarModel("g", w, s, True)
     try:
         ExprFieldRefModel(g).build(bt)
